@@ -376,9 +376,29 @@ func (in *Interp) load(t types.Type, p Ptr) Value {
 		in.unsupported("load of uninitialised cell")
 	}
 	// reinterpretation through unsafe casts: coerce scalar signedness
-	if tm, ok := v.(*Term); ok {
-		if ty, ok := scalarTyp(t); ok && ty != tm.T {
-			return in.coerce(tm, ty)
+	switch x := v.(type) {
+	case *Term:
+		if ty, ok := scalarTyp(t); ok && ty != x.T {
+			return in.coerce(x, ty)
+		}
+	case Slice:
+		// *(*string)(unsafe.Pointer(&byteSlice)): view a byte slice header as a string
+		if b, ok := t.Underlying().(*types.Basic); ok && b.Info()&types.IsString != 0 {
+			bs := make([]*Term, len(x.a))
+			for i, c := range x.a {
+				bs[i] = c.(*Term)
+			}
+			return in.mkStr(bs)
+		}
+	case Str:
+		// *(*[]byte)(unsafe.Pointer(&s)): view a string header as a byte slice (read-only use)
+		if _, ok := t.Underlying().(*types.Slice); ok {
+			bs := in.strBytes(x)
+			a := make([]Value, len(bs))
+			for i, b := range bs {
+				a[i] = b
+			}
+			return Slice{a: a}
 		}
 	}
 	return v
